@@ -20,7 +20,8 @@ LEVEL_TEXT = ("Feasible placements are built by construction (demand <= "
               "slice is checked and success is demanded whenever the "
               "documented sufficient condition holds.  Randomised "
               "exploration: the input space is unbounded, failure modes are "
-              "boundary interactions the generators aim at.")
+              "boundary interactions the generators aim at."
+              ' Also machines of hundreds of chips with vertex-major placements, and capacities written as floats.')
 LEVEL_NOTE = ("Trusted: the harness's interval arithmetic and its per-chip "
               "'reservations only at the ends' predicate.")
 RULE = ("one case = machine + vertices + feasible placement + reservation/"
